@@ -263,7 +263,8 @@ type BytecodeCompiler struct {
 	Errors                *diagnostic.SyncDiagnosticList
 	scopes                bytecodeScopes
 	loopJumpSets          []*bytecodeLoopJumpSet
-	offsetValueIds        []int // ids of integers in the value pool that represent bytecode offsets
+	offsetValueIds        []int           // ids of integers in the value pool that represent bytecode offsets
+	callsToOptimise       []*bytecodeCall // calls emitted by this compiler that wait for `optimiseCalls`, they hold bytecode offsets
 	secondToLastOpCode    bytecode.OpCode
 	lastOpCode            bytecode.OpCode
 	parent                *BytecodeCompiler
@@ -679,13 +680,13 @@ func (c *BytecodeCompiler) optimiseCalls() {
 
 			if method != nil {
 				c.patchOptimisedCall(call, method)
-				return
+				continue
 			}
 		}
 
 		method := c.checker.GetMethod(call.receiverType, name, nil)
 		if method == nil {
-			return
+			continue
 		}
 
 		c.patchOptimisedCall(call, method.Body)
@@ -693,32 +694,45 @@ func (c *BytecodeCompiler) optimiseCalls() {
 }
 
 func (c *BytecodeCompiler) patchOptimisedCall(call *bytecodeCall, method value.Method) {
-	opcode := bytecode.OpCode(call.bytecode.Instructions[call.bytecodeOffset])
+	var wide bool
+	switch bytecode.OpCode(call.bytecode.Instructions[call.bytecodeOffset]) {
+	case bytecode.CALL_METHOD8, bytecode.CALL_METHOD_TCO8:
+	case bytecode.CALL_METHOD16, bytecode.CALL_METHOD_TCO16:
+		wide = true
+	default:
+		// Not a dynamic method call, keep the instruction and its call site info as they are.
+		// The opcode and the type of the call site info must always be replaced together.
+		return
+	}
+
+	var opcode bytecode.OpCode
+	var callSiteInfo value.Value
 	switch body := method.(type) {
 	case *vm.BytecodeFunction:
-		switch opcode {
-		case bytecode.CALL_METHOD8, bytecode.CALL_METHOD_TCO8:
-			call.bytecode.Instructions[call.bytecodeOffset] = byte(bytecode.CALL_METHOD_BC8)
-		case bytecode.CALL_METHOD16, bytecode.CALL_METHOD_TCO16:
-			call.bytecode.Instructions[call.bytecodeOffset] = byte(bytecode.CALL_METHOD_BC16)
+		opcode = bytecode.CALL_METHOD_BC8
+		if wide {
+			opcode = bytecode.CALL_METHOD_BC16
 		}
-		call.bytecode.Values[call.callSiteInfoIndex] = vm.NewBytecodeCallSiteInfo(
+		callSiteInfo = vm.NewBytecodeCallSiteInfo(
 			body,
 			call.argCount,
 			call.tailCall,
 		).ToValue()
 	case *vm.NativeMethod:
-		switch opcode {
-		case bytecode.CALL_METHOD8, bytecode.CALL_METHOD_TCO8:
-			call.bytecode.Instructions[call.bytecodeOffset] = byte(bytecode.CALL_METHOD_NT8)
-		case bytecode.CALL_METHOD16, bytecode.CALL_METHOD_TCO16:
-			call.bytecode.Instructions[call.bytecodeOffset] = byte(bytecode.CALL_METHOD_NT16)
+		opcode = bytecode.CALL_METHOD_NT8
+		if wide {
+			opcode = bytecode.CALL_METHOD_NT16
 		}
-		call.bytecode.Values[call.callSiteInfoIndex] = vm.NewNativeCallSiteInfo(
+		callSiteInfo = vm.NewNativeCallSiteInfo(
 			body,
 			call.argCount,
 		).ToValue()
+	default:
+		return
 	}
+
+	call.bytecode.Instructions[call.bytecodeOffset] = byte(opcode)
+	call.bytecode.Values[call.callSiteInfoIndex] = callSiteInfo
 }
 
 func (c *BytecodeCompiler) removeLastBytes(offset int) {
@@ -1137,6 +1151,11 @@ func (c *BytecodeCompiler) prepLocals() {
 	for _, id := range c.offsetValueIds {
 		currentValue := c.bytecode.Values[id].MustSmallInt()
 		c.bytecode.Values[id] = (currentValue + value.SmallInt(len(newInstructions))).ToValue()
+	}
+
+	// the call instructions have just been moved
+	for _, call := range c.callsToOptimise {
+		call.bytecodeOffset += len(newInstructions)
 	}
 }
 
@@ -9240,7 +9259,7 @@ func (c *BytecodeCompiler) compileOptimisedCallMethod(receiverType types.Type, n
 			tailCall,
 		)
 
-		c.globalData.callsToOptimise.Push(
+		c.registerCallToOptimise(
 			newBytecodeCall(
 				name,
 				c.bytecode,
@@ -9274,7 +9293,7 @@ func (c *BytecodeCompiler) compileOptimisedCallMethod(receiverType types.Type, n
 			tailCall,
 		)
 
-		c.globalData.callsToOptimise.Push(
+		c.registerCallToOptimise(
 			newBytecodeCall(
 				name,
 				c.bytecode,
@@ -9292,6 +9311,13 @@ func (c *BytecodeCompiler) compileOptimisedCallMethod(receiverType types.Type, n
 			tailCall,
 		)
 	}
+}
+
+// Remember a call to a method that has not been compiled yet,
+// it will be bound statically in `optimiseCalls` once all methods are compiled.
+func (c *BytecodeCompiler) registerCallToOptimise(call *bytecodeCall) {
+	c.callsToOptimise = append(c.callsToOptimise, call)
+	c.globalData.callsToOptimise.Push(call)
 }
 
 // Emit an instruction that calls a method
